@@ -144,7 +144,9 @@ static void sb_show(struct th* t) {  // owner gets the cpu: it sees its own buff
   }
 }
 static void capture_pending(struct th* t);
+static int noprogress_rounds;
 static void progress(void) {
+  noprogress_rounds = 0;
   progress_epoch++;
   T[me].nop = 0;
   T[me].spin_rounds = 0;
@@ -326,8 +328,30 @@ static int others_alive(void) {
 }
 static void do_yield(int idle);
 
+static int in_round, round_master;
+static void do_switch(int to);
 static void quiescent(void) {
-  // every kernel thread is idle (or spinning without any possible progress)
+  // every kernel thread is idle (or spinning without any possible progress).
+  // Idle kernel threads are not blocked for ever: their poll times out (5 ms) and they look
+  // for work again (load balance, run queues, events). Before the state counts as quiescent
+  // every idle thread gets such a timeout iteration, twice in a row without any progress.
+  if (nth >= 2 && noprogress_rounds < 2) {
+    uint64_t e0 = progress_epoch;
+    noprogress_rounds++;
+    in_round = 1;
+    round_master = me;
+    T[me].yielded = 1;
+    for (int k = 0; k < nth && progress_epoch == e0; k++)
+      if (k != me && T[k].alive && T[k].yielded && T[k].idle) {
+        TRC("[%lu] poll timeout: idle T%d looks for work again\n", (unsigned long)TR->steps, k);
+        do_switch(k);
+      }
+    in_round = 0;
+    T[me].yielded = 0;
+    if (progress_epoch != e0) noprogress_rounds = 0;
+    return;
+  }
+  noprogress_rounds = 0;
   if (fmc_on_quiescent && fmc_on_quiescent()) {
     progress();
     return;
@@ -345,6 +369,14 @@ static void do_yield(int kind) {  // 0 polite (spinning), 1 idle (would block), 
   if (t->seen_epoch != progress_epoch) {
     t->spin_rounds = 0;
     t->seen_epoch = progress_epoch;
+  }
+  if (in_round && me != round_master && idle) {
+    t->yielded = 1;
+    t->idle = 1;
+    t->yield_epoch = progress_epoch;
+    do_switch(round_master);
+    t->yielded = 0;
+    return;
   }
   if (nth < 2 || !others_alive()) {
     if (idle) quiescent();
@@ -404,8 +436,11 @@ static void do_yield(int kind) {  // 0 polite (spinning), 1 idle (would block), 
   t->yielded = 0;
 }
 
+static int env_observer;  // set by the callers that are about to observe the environment (epoll, descriptor syscalls)
 static void sched_point(void* addr, int sz, int w, int always, void* pc, int flush, int plainw) {
   if (!fmc_is_exploring) return;
+  int observes_env = env_observer || (SH->envall && always);
+  env_observer = 0;
   struct th* t = &T[me];
   if (cur != me) {
     fmc_rawlog("fmc: thread %d running while cur=%d\n", me, cur);
@@ -427,7 +462,7 @@ static void sched_point(void* addr, int sz, int w, int always, void* pc, int flu
     }
   }
   if (fmc_tracing > 1) fmc_rawlog("[%lu] T%d %s %p sz=%d pc=%p\n", (unsigned long)TR->steps, me, w ? "W" : "R", addr, sz, pc);
-  int in_S = always || !fmc_use_site_filter || SH->site_shared[sh];
+  int in_S = always || !fmc_use_site_filter || SH->nofilter || SH->site_shared[sh];
   // a buffered store may be committed early at any later callback of its owner; it is
   // committed at the latest when the owner is about to execute a flushing operation,
   // i.e. AFTER the scheduling decision below (others may run while it is still buffered)
@@ -452,18 +487,24 @@ static void sched_point(void* addr, int sz, int w, int always, void* pc, int flu
     unsigned mask = 1u << me;
     for (int k = 0; k < nth; k++)
       if (k != me && eligible_other(k)) mask |= 1u << k;
-    if (&fmc_env_nalts && fmc_env_alt && always)
+    // an injected environment event (timer tick) commutes with everything that does not observe the
+    // environment, so it only has to be offered immediately before operations that do
+    if (&fmc_env_nalts && fmc_env_alt && observes_env)
       for (int k = 0; k < fmc_env_nalts && k < 8; k++) mask |= 1u << (8 + k);
     if (mask != (1u << me)) {
       int c = choose(K_SCHED, mask, me, 1, sh);
       if (c >= 8) {
         fmc_env_alt(c - 8);
         progress();
-      } else if (c != me) {
-        do_switch(c);
+        // the event has happened; the current thread may still be pre-empted before its operation
+        mask = 1u << me;
+        for (int k = 0; k < nth; k++)
+          if (k != me && eligible_other(k)) mask |= 1u << k;
+        c = mask != (1u << me) ? choose(K_SCHED, mask, me, 1, sh) : me;
       }
+      if (c != me && c < 8) do_switch(c);
     }
-  } else if (nth < 2 && always && &fmc_env_nalts && fmc_env_alt && fmc_env_nalts > 0) {
+  } else if (nth < 2 && observes_env && &fmc_env_nalts && fmc_env_alt && fmc_env_nalts > 0) {
     unsigned mask = 1u << me;
     for (int k = 0; k < fmc_env_nalts && k < 8; k++) mask |= 1u << (8 + k);
     int c = choose(K_SCHED, mask, me, 1, sh);
@@ -515,6 +556,12 @@ void fmc_rmw16(volatile void* a) {
     t->pw_sz = 16;
     memcpy(t->pw_old, (void*)a, 16);
   }
+}
+// a scheduling point at which the harness itself is about to observe the environment (e.g. reads the
+// virtual clock): environment deviations are offered here too
+void fmc_env_observe(void) {
+  env_observer = 1;
+  sched_point(0, 0, 0, 1, __builtin_return_address(0), 0, 0);
 }
 int fmc_env_choose(int nalts) {
   if (!fmc_is_exploring || nalts < 2) return 0;
@@ -633,12 +680,15 @@ int pthread_create(pthread_t* th, const pthread_attr_t* a, void* (*fn)(void*), v
 // ---------------------------------------------------------------- environment
 int epoll_wait(int ep, struct epoll_event* ev, int n, int to) {
   if (!fmc_is_exploring) return syscall(SYS_epoll_wait, ep, ev, n, to > 0 ? 0 : to);
+  env_observer = 1;
   sched_point(0, 0, 0, 1, __builtin_return_address(0), 1, 0);
   int r = syscall(SYS_epoll_wait, ep, ev, n, 0);
   if (r == 0 && to != 0) {
     if (++TR->steps > fmc_horizon) fmc_finish(V_HORIZON, "horizon");
     T[me].sp = (uintptr_t)__builtin_frame_address(0);
     do_yield(1);
+    env_observer = 1;  // the poll after waking up observes the environment again
+    sched_point(0, 0, 0, 1, __builtin_return_address(0), 1, 0);
     r = syscall(SYS_epoll_wait, ep, ev, n, 0);
   }
   if (r > 0) progress();
@@ -678,6 +728,7 @@ int getrlimit(__rlimit_resource_t r, struct rlimit* l) {
 }
 // scheduling point for the interposed libc I/O calls (engine/fmc_env.c, shared object)
 void fmc_env_point(void) {
+  env_observer = 1;
   sched_point(0, 0, 0, 1, __builtin_return_address(0), 1, 0);
   if (fmc_is_exploring) progress();
 }
